@@ -118,7 +118,7 @@ class C16(Property):
     self.threads_part.setup()
 
   def budget(self, tier):
-    return (30000, 40.0) if tier == "quick" else (3000000, 900.0)
+    return (150000, 60.0) if tier == "quick" else (20000000, 780.0)
 
   def extra_schedules(self):
     return 8
